@@ -286,12 +286,18 @@ def literal_cases(tier):
     yield {'text': 'a:lang( /*c*/ en )', 'spec': [0, 0, 0, 1], 'struct': ['a', ':lang', '(en)']}
     yield {'text': 'A:BEFORE', 'spec': [0, 0, 0, 2], 'struct': ['A', ':before']}
     yield {'text': 'p:First-Line', 'spec': [0, 0, 0, 2], 'struct': ['p', ':first-line']}
+    yield {'tag': 'u-plus-a', 'a': 'u + a', 'b': 'u+a'}
+    yield {'tag': 'u-plus-a', 'a': 'x .u + dd', 'b': 'x .u+dd'}
+    yield {'tag': 'escape-roundtrip', 'a': 'a\\20 b', 'b': None}
+    yield {'tag': 'escape-roundtrip', 'a': '.\\31 a', 'b': None}
 
 
 def check_literal(case, ctx):
     saved = cssutils.log.raiseExceptions
     cssutils.log.raiseExceptions = True
     try:
+        if 'tag' in case:
+            return _check_literal_pair(case, ctx)
         ctx.case(case['text'], True, case)
         try:
             with lib('Selector', expect=(xml.dom.DOMException,)):
@@ -307,13 +313,36 @@ def check_literal(case, ctx):
         cssutils.log.raiseExceptions = saved
 
 
+def _spec_of(text):
+    try:
+        with lib('Selector', expect=(xml.dom.DOMException,)):
+            s = Selector(text)
+            return tuple(s.specificity), s.selectorText
+    except xml.dom.DOMException as e:
+        return None, str(e)
+
+
+def _check_literal_pair(case, ctx):
+    ctx.case([case['tag'], case['a']], True, case)
+    sa, ta = _spec_of(case['a'])
+    if case['tag'] == 'u-plus-a':
+        sb, tb = _spec_of(case['b'])
+        if sa != sb:
+            raise Violation('literal:u-plus-a-is-a-unicode-range', f'{case["a"]!r}: {sa}; {case["b"]!r}: {sb} ({tb})')
+    elif case['tag'] == 'escape-roundtrip':
+        sb, tb = _spec_of(ta)
+        if sa != sb:
+            raise Violation('literal:escape-lost-on-round-trip', f'{case["a"]!r}: {sa}, written {ta!r}, which reparses as {sb} ({tb})')
+
+
 SUBS.append(Sub('literal', check_literal, enumerate=literal_cases, shards_quick=1, shards_thorough=1))
 
 
 # --------------------------------------------------------------------------- a list with an invalid member, error-logging mode
 
 VALID_M = ['a', '.b', '#c', 'd > e', 'f:hover', '[g]', ':not(.h)', 'i::before']
-INVALID_M = ['$', '1a', 'a:::b', 'a[]', '.#x', ':not(a b)', 'a:not()', '>', 'a b >', '[=v]', '#', '.']
+INVALID_M = ['$', '1a', 'a:::b', 'a[]', '.#x', ':not(a b)', 'a:not()', '>', 'a b >', '[=v]', '#', '.',
+             ':not(a)b', 'a:nth-child(2)b', ':not(.c)*', 'a:not(b)c', '[a>b=c]', '[a~b=c]', '[[a]=b]', 'p[a+b]', '.c*', '[a]b', ':hover*']
 logmode_strategy = st.fixed_dictionaries({
     'members': st.lists(st.integers(0, len(VALID_M) - 1), min_size=1, max_size=3),
     'bad': st.integers(0, len(INVALID_M) - 1),
